@@ -65,6 +65,12 @@ def run(module, cfg, env=None, workers=1, extra=(), timeout=3600, coverage=False
         except subprocess.TimeoutExpired as ex:
             raise TlcFailure("TLC timed out after %ss on %s/%s" % (timeout, module, cfg))
         out = p.stdout.decode("utf-8", "replace")
+        if "TLC threw an unexpected exception" in out and workers != 1 and "-simulate" not in extra:
+            # TLC's lazily normalised record values are not thread-safe ("nonexistent field" on a field that
+            # exists): a multi-worker run that trips over this is repeated with one worker
+            shutil.rmtree(md, ignore_errors=True)
+            return run(module, cfg, env=env, workers=1, extra=extra, timeout=timeout, coverage=coverage, heap=heap,
+                       keep=keep, dfs=dfs)
         r = parse_output(out)
         r.wall = time.time() - t0
         if keep:
@@ -229,7 +235,7 @@ def dump_graph(module, cfg, workers=8, timeout=3600, env=None):
             if m:
                 edges.append((m.group(1), m.group(3).replace('\\"', '"'), m.group(2)))
                 continue
-            m = re.match(r'^(-?\d+) \[label="(.*)"(?:,tooltip|,style|\])', ln)
+            m = re.match(r'^(-?\d+) \[label="(.*?)(?<!\\)"(?:,tooltip=|,style = filled\])', ln)
             if m:
                 lab = m.group(2).replace('\\"', '"').replace("\\n", "\n").replace("\\\\", "\\")
                 nodes[m.group(1)] = parse_state(lab)
